@@ -1,6 +1,6 @@
 #!/bin/bash
 # usage: tryseed.sh <PID> <diff> [check args]
 pid=$1; diff=$2; shift 2
-wt=${VFMUT:-/var/tmp/vf-mut}; cd $wt && git checkout -q -- . && git reset -q --hard $(git -C /repo rev-parse HEAD) && git apply "$diff" || { echo "apply failed"; exit 2; }
+wt=${VFMUT:-/var/tmp/vf-mut}; cd $wt && git checkout -q -- . && git reset -q --hard $(git -C /repo rev-parse HEAD) && { git apply "$diff" 2>/dev/null || git apply -C2 "$diff" 2>/dev/null || git apply -C1 "$diff"; } || { echo "apply failed"; exit 2; }
 cd /verif && VERIF_REPO=$wt timeout 1500 ./check $pid "$@" 2>&1 | grep -E "tier=|VIOLATION|HARNESS|^  [a-zA-Z0-9_:<>=-]+: " | cut -c1-330
 wt=${VFMUT:-/var/tmp/vf-mut}; cd $wt && git checkout -q -- .
